@@ -391,6 +391,28 @@ def j7(led, rid, ctx):
                           "weaker than the assumption it stands for" % (picks[0] if picks else ""))
     rngs = [x for x in reason.walk() if x.k == "agg" and (x.a or "").split("::")[-1] in ("Range", "RangeInclusive")]
     incl = [x for x in reason.walk() if x.k == "call" and x.a.name == "new" and "RangeInclusive" in (x.a.target_def or "")]
+    if not rngs and not incl:
+        # loop form: `for level in lo..hi { for entry in trail.values_on_decision_level(level) { if entry.reason
+        # .is_none() { reason.push(entry.predicate) } } }` — the range is that of the level handed to
+        # values_on_decision_level, and the pushes onto the reason take their value from those entries
+        from ..flow import root_local as _rl
+        rvec = _rl(f, e.args[2])
+        fed = False
+        for c2 in f.calls:
+            if c2.name in ("push", "add", "extend", "insert") and c2.args and _rl(f, c2.args[0]) == rvec:
+                v = R.operand(c2.args[-1])
+                if any(x.name == "values_on_decision_level" for x in v.calls()):
+                    fed = True
+        for c2 in f.calls_named("values_on_decision_level"):
+            lv = R.operand(c2.args[-1])
+            if fed:
+                rngs += [x for x in lv.walk() if x.k == "agg" and (x.a or "").split("::")[-1] in ("Range", "RangeInclusive")]
+                incl += [x for x in lv.walk() if x.k == "call" and x.a.name == "new" and "RangeInclusive" in (x.a.target_def or "")]
+            for c3 in f.calls:
+                if c3.name in PICK and c3.name != "next" and c3.args and any(y is c2 for y in R.operand(c3.args[0]).calls()):
+                    led.bad(rid, "no-learning:reason-takes-every-decision-entry", c3.span,
+                            "the reason of the flipped decision takes `%s` of each earlier level instead of every "
+                            "reason-less entry" % c3.name)
     hi = lo = None
     try:
         if rngs:
